@@ -109,8 +109,11 @@ impl Aggregator {
             }
             TopicLogSyncEvent::SessionFinished { metrics } => {
                 self.handle_session_end(session_id);
-                self.total_bytes_sent += metrics.sent_bytes();
-                self.total_bytes_received += metrics.received_bytes();
+                // The metrics of a finished session are cumulative (sync and live phase). The
+                // bytes of the sync phase were already added on `SyncFinished`, only the live
+                // phase is new here.
+                self.total_bytes_sent += metrics.sent_live_bytes;
+                self.total_bytes_received += metrics.received_live_bytes;
                 None
             }
             TopicLogSyncEvent::Failed { error } => {
